@@ -430,6 +430,12 @@ impl<CS: BbsCiphersuite> PoKSignature<BBSplus<CS>> {
             .ok_or_else(|| Error::PoKSVerificationError("invalid number of signer messages".to_owned()))?;
         let shift = L + 1;
 
+        // a signer message is addressed by an index below L, a committed message by an index below M (as in blind_proof_gen):
+        // otherwise a message of one kind, or the blind factor, can be presented as a message of the other kind
+        if disclosed_indexes.iter().any(|&i| i >= L) || disclosed_commitment_indexes.iter().any(|&j| j >= M) {
+            return Err(Error::PoKSVerificationError("disclosed index out of range".to_owned()));
+        }
+
         let (message_scalars, generators) = prepare_parameters::<CS>(
             Some(disclosed_messages),
             Some(disclosed_committed_messages),
